@@ -538,7 +538,19 @@ static void report_dead(Result &r, std::string const &part, std::string const &c
                         std::string const &batch_err, std::string const &origin)
 {
   std::string err;
-  int ei = replay_alone(conf, s.status == 3 ? 50.0 : 30.0, err);
+  int ei;
+  static std::map<std::string, int> confirms;  // per worker: deaths with this key that were reproduced alone
+  std::string const bkey = (s.status == 2) ? death_key(s.exitinfo, batch_err) : std::string();
+  if (s.status == 2 && confirms[bkey] >= 3 && g_sigcache.count(bkey)) {
+    // the same death (same kind, same frames) has already been reproduced alone three times by this worker: every
+    // batch case runs on a fresh module, so the batch observation is taken as it is
+    ei = s.exitinfo;
+    err = batch_err;
+    r.count(part + "_deaths_not_rerun_alone_same_site_confirmed_3x");
+  } else {
+    ei = replay_alone(conf, s.status == 3 ? 50.0 : 30.0, err);
+    if (ei != 0 && ei != -1000) confirms[death_key(ei, err)]++;
+  }
   if (ei == 0) {
     // did not reproduce alone (a case that was only slow under load, or a death that depends on what ran before)
     // (typical: a UBSan report about an uninitialised value, which depends on what the memory held)
@@ -1254,6 +1266,9 @@ static std::string token_string(unsigned long idx, int len, int nt)
 
 struct TotalCase { std::string conf, origin; };
 
+static void flat_nodes(std::vector<Node> const &nodes, std::vector<std::string> &path,
+                       std::vector<std::pair<Node const *, std::vector<std::string>>> &out);
+
 static int mode_total(Args &args, Result &total)
 {
   bool th = args.thorough();
@@ -1302,8 +1317,38 @@ static int mode_total(Args &args, Result &total)
   };
 
   // ---- B. byte mutations of corpus files ----
-  std::vector<char> repl = th ? std::vector<char>{'{', '}', '\n', '#', '\0', 'x'} : std::vector<char>{};
+  std::vector<char> repl = th ? std::vector<char>{'{', '}', '\n', '\0'} : std::vector<char>{};
   int const per_off = 2 + (int) repl.size();
+  // quick tier: byte mutations run on a subset of the files that still contains every (context kind, keyword) pair of
+  // the corpus at least once (greedy cover; most test inputs differ from another one in a single block only)
+  size_t const nfiles_all = C.size();
+  if (!th) {
+    std::vector<std::set<std::string>> pairs(C.size());
+    std::set<std::string> todo;
+    for (size_t fi = 0; fi < C.size(); fi++) {
+      std::vector<std::pair<Node const *, std::vector<std::string>>> all;
+      std::vector<std::string> path;
+      flat_nodes(C[fi].tree, path, all);
+      for (auto &pr : all) pairs[fi].insert(ctx_kind(pr.second) + "/" + lower(pr.first->key));
+      todo.insert(pairs[fi].begin(), pairs[fi].end());
+    }
+    std::vector<CorpusFile> sel;
+    std::vector<bool> used(C.size(), false);
+    while (!todo.empty()) {
+      size_t best = 0, best_gain = 0;
+      for (size_t fi = 0; fi < C.size(); fi++) {
+        if (used[fi]) continue;
+        size_t gain = 0;
+        for (auto &p : pairs[fi]) if (todo.count(p)) gain++;
+        if (gain > best_gain || (gain == best_gain && gain > 0 && C[fi].text.size() < C[best].text.size())) { best = fi; best_gain = gain; }
+      }
+      if (best_gain == 0) break;
+      used[best] = true;
+      sel.push_back(C[best]);
+      for (auto &p : pairs[best]) todo.erase(p);
+    }
+    C = sel;
+  }
   std::vector<unsigned long> fbase;  // cumulative case index per file
   unsigned long nmut = 0;
   for (auto &f : C) { fbase.push_back(nmut); nmut += (unsigned long) f.text.size() * per_off; }
@@ -1326,7 +1371,7 @@ static int mode_total(Args &args, Result &total)
   total.notes.push_back("token strings: all strings over 15 tokens (11 words/braces/newlines + '#', tab, NUL, 0x80) up to length " +
                         std::to_string(L - 1) + " (" + std::to_string(nfull) + ") and all strings of length " + std::to_string(L) +
                         " over the 12-token alphabet with '#' as the only special byte (" + std::to_string(ntop) + "); byte mutations: " +
-                        std::to_string(C.size()) + " files, " + std::to_string(nmut) + " cases (delete, truncate, replace by " +
+                        std::to_string(C.size()) + " of " + std::to_string(nfiles_all) + " files" + (th ? "" : " (smallest set containing every (context kind, keyword) pair of the corpus)") + ", " + std::to_string(nmut) + " cases (delete, truncate, replace by " +
                         std::to_string(repl.size()) + " bytes at every offset)");
   for (auto &e : excluded) total.notes.push_back("corpus file left out: " + e);
 
